@@ -124,14 +124,18 @@ PD_CHOICES = [("gaussian", 0.1, 5, 2.0), ("schulz", 0.25, 6, 3.0), ("rectangle",
               ("lognormal", 0.15, 5, 2.0)]
 
 
-def add_dispersity(info, pars, rng, dim, nmax=2):
+def add_dispersity(info, pars, rng, dim, nmax=2, big=False):
     """Relative dispersity on up to nmax size parameters (+ angular jitter in 2-D)."""
     P = info.parameters
     cands = [p for p in kernel_call_parameters(info)
              if p.polydisperse and p.type == "volume" and not p.is_control]
     rng.shuffle(cands)
-    for p in cands[:nmax]:
+    for j, p in enumerate(cands[:nmax]):
         t, w, n, ns = rng.choice(PD_CHOICES)
+        if big:
+            # a mesh of more than 100 points: the compiled kernel is re-entered slice by slice and its running
+            # totals (weights, volumes, effective radius) are carried over between the calls
+            n = (13, 11)[j] if len(cands) > 1 else 104
         pars[p.name + "_pd"] = w
         pars[p.name + "_pd_n"] = n
         pars[p.name + "_pd_nsigma"] = ns
@@ -242,7 +246,7 @@ def base_events(req):
                     if p.type == "orientation":
                         pars[p.name] = rng.choice([0.0, 20.0, 45.0, 77.0, 90.0, -30.0, 130.0])
             if k % 3 == 1:
-                add_dispersity(info, pars, rng, dim)
+                add_dispersity(info, pars, rng, dim, big=(rng.random() < 0.5))
             smax, _ = length_scale(info, pars)
             qs = q_points(smax, dim, rng)
             res = evaluate(name, dim, pars, qs)
